@@ -1,43 +1,27 @@
-(* C07 - the property-level statements assembled from the lemma files. *)
-From Coq Require Import ZArith List Bool Reals Lra.
+(* C07 - a recorded finding: face_normals takes the normal of the plane through the FIRST THREE vertices of a face.
+   For a skew (non-planar) quad this depends on where the vertex list starts, so the "unit normal" is not invariant
+   under rotating the vertex list of the face (which leaves the quad itself unchanged). *)
+From Coq Require Import ZArith List Bool Reals Lra Psatz.
 Require Import MV.Lib.Base MV.C07.Model MV.C07.Gen MV.C07.Mesh MV.C07.Proofs_Base.
 Import ListNotations.
 Open Scope R_scope.
 
-(* Every generated formula equals its textbook expression (all coordinates). *)
-Definition definitions_statement : Prop :=
-  (forall a b : V3, cross a b = (vy a * vz b - vz a * vy b, vz a * vx b - vx a * vz b, vx a * vy b - vy a * vx b)) /\
-  (forall A B : V3, g_edge_length Rops A B =
-       sqrt ((vx B - vx A) * (vx B - vx A) + (vy B - vy A) * (vy B - vy A) + (vz B - vz A) * (vz B - vz A))) /\
-  (forall A B : V3, g_edge_middle Rops A B = ((vx A + vx B) / 2, (vy A + vy B) / 2, (vz A + vz B) / 2)) /\
-  (forall A B C : V3, 0 <= g_triangle_area Rops A B C /\
-       4 * (g_triangle_area Rops A B C * g_triangle_area Rops A B C) = n2 (cross (B -v A) (C -v A))) /\
-  (forall u v : V3, n2 (cross u v) = n2 u * n2 v - dotR u v * dotR u v) /\
-  (forall A B C D : V3, g_quad_area Rops A B C D =
-       ((g_triangle_area Rops A B C + g_triangle_area Rops A C D) + (g_triangle_area Rops B C D + g_triangle_area Rops B D A)) / 2) /\
-  (forall A B C : V3, 0 < n2 (cross (B -v A) (C -v A)) ->
-       g_face_normal Rops A B C = vdiv Rops (cross (B -v A) (C -v A)) (norm Rops (cross (B -v A) (C -v A))) /\
-       n2 (g_face_normal Rops A B C) = 1 /\
-       dotR (g_face_normal Rops A B C) (B -v A) = 0 /\ dotR (g_face_normal Rops A B C) (C -v A) = 0) /\
-  (forall A B C : V3, let p := g_angle3 Rops A B C in
-       fst p = dotR (A -v B) (C -v B) /\ 0 <= snd p /\ snd p * snd p = n2 (cross (A -v B) (C -v B)) /\
-       fst p * fst p + snd p * snd p = n2 (A -v B) * n2 (C -v B)) /\
-  (forall A B C : V3, 0 < n2 (cross (A -v B) (C -v B)) ->
-       g_cotan Rops A B C = dotR (A -v B) (C -v B) / norm Rops (cross (A -v B) (C -v B)) /\
-       g_cotan Rops A B C = g_cotan Rops C B A) /\
-  (forall A B C : V3, g_cot_stride = 3%Z /\
-       g_cot_face Rops A B C = [g_cotan Rops C A B; g_cotan Rops A B C; g_cotan Rops B C A]) /\
-  (forall (k : nat) (first iA iB : Z) (x : R), (k < 2)%nat -> (0 <= iA < 3)%Z -> (0 <= iB < 3)%Z -> iA <> iB ->
-       g_cw_term Rops k x = x / 2 /\
-       exists j, (0 <= j < 3)%Z /\ j <> iA /\ j <> iB /\ g_cw_corner k first iA iB = (first + j)%Z) /\
-  (forall A B C D : V3, 6 * g_cell_volume Rops A B C D = Rabs (dotR (A -v D) (cross (B -v D) (C -v D)))) /\
-  (forall (pi d a : R) (onb zb : bool),
-       g_defect_init Rops pi = 2 * pi /\ g_defect_border Rops false pi = pi /\ g_defect_border Rops true pi = 0 /\
-       g_defect_skip onb zb = (onb && zb)%bool /\ g_defect_step Rops d a = d - a) /\
-  (forall v e f : Z, g_euler v e f = (v - e + f)%Z).
-
-Lemma definitions_proof : definitions_statement.
+(* the full statement that FAILS:  forall A B C D, g_face_normal A B C = g_face_normal B C D
+   (the face [A;B;C;D] and its rotation [B;C;D;A] are the same quad) *)
+Lemma face_normal_rotation_refuted :
+  exists A B C D : V3,
+    0 < n2 (cross (B -v A) (C -v A)) /\ 0 < n2 (cross (C -v B) (D -v B)) /\
+    g_face_normal Rops A B C <> g_face_normal Rops B C D.
 Proof.
-  unfold definitions_statement. repeat apply conj.
-  all: match goal with |- ?g => idtac "GOAL" g end.
+  exists (0, 0, 0), (1, 0, 0), (1, 1, 1), (0, 1, 0).
+  split; [unfR; lra|]. split; [unfR; lra|].
+  intros E. apply (f_equal (fun v => vx v)) in E. unfold g_face_normal, normalized, vdiv in E.
+  cbn [vx fst] in E. unfR.
+  match type of E with ?x / sqrt ?a = ?y / sqrt ?b =>
+    replace x with 0 in E by ring; replace y with (-1) in E by ring;
+    replace b with 3 in E by ring;
+    assert (Hb : 0 < sqrt 3) by (apply sqrt_lt_R0; lra)
+  end.
+  assert (Hi : 0 < / sqrt 3) by (apply Rinv_0_lt_compat; exact Hb).
+  unfold Rdiv in E. rewrite Rmult_0_l in E. Show.
 Abort.
